@@ -55,6 +55,14 @@ def build_case(cs, profile):
         kw.update(max_s=25, max_p=14, max_l=6, min_s=12, max_list=4)
         kw['shape'] = rng.choice(['dense', 'lowerq', 'tight_lecturer', 'no_ties', 'dense'])
     spec = sp.make_spec(rng, **kw)
+    fam = rng.random()
+    hr_ = profile.get('huge_ids_rate', 0.012)
+    if fam < hr_:
+        spec = sp.make_huge_id_spec(rng)          # project / lecturer ids 258..600
+    elif fam < hr_ + 0.012:
+        spec = sp.make_huge_id_hr_spec(rng)       # hospital ids 258..300
+    elif fam < hr_ + 0.038:
+        spec = sp.make_long_list_spec(rng)        # ranks 10..13
     if profile.get('size_cost_cross'):
         spec = sp.make_size_cost_cross_spec(rng)
     if profile.get('big_quota'):
@@ -101,6 +109,8 @@ def lp_case(cs, ctx, profile, probe_rate=0.0, probe_cap=64, _confirm=False):
         ctx.cnt('shipped_evaluation_instances')
     if spec['ns'] >= 10:
         ctx.cnt('instances_with_10_or_more_students')
+    if spec.get('shape') in ('huge_ids', 'huge_ids_hr', 'long_list'):
+        ctx.cov('family_' + spec['shape'])
     decoy_argv = None
     if rng.random() < profile.get('decoy_rate', 0.06):
         d = sp.make_opts(rng, spec, twopl=opts['twopl'] if rng.random() < 0.7 else None)
